@@ -210,7 +210,7 @@ theorem lk_body (fuel : Nat) (rev : Nat → Nat) (priv0 : Loc → Option Val) (i
               (try simp [hr, hb, he] at hnm) <;>
               lexec [lkBody, firstLoop, Gen.Src.«lfht.cds_lfht_lookup», call_is_end, call_clear_flag, call_is_removed,
                 call_is_bucket, pureCall, bind1, encP_pos hn] <;>
-              exact hfin _ (by simp [hpr]) (by simp [hit]) (by simp [hrh]) (by simp [hky]) (by simp)
+              (refine hfin _ ?_ ?_ ?_ ?_ ?_ <;> first | rfl | simp [hpr, hit, hrh, hky])
           trace_state
           sorry
 
